@@ -29,6 +29,30 @@ Theorem C17_closed : forall sch port hosts rest, fam sch port hosts rest ->
   forall y, In y (lru_variations x) <-> In y (lru_variations (build sch port hosts rest)).
 Proof. exact VarFacts.C17_closed. Qed.
 
+(* The same four clauses for the function TRANSLATED from /repo/traph/helpers.py on this run
+   (GenHelpers.py_lru_variations, harness/gen_helpers.py): the translation is proved equal to
+   the hand-written model, so these are theorems about what the source says now. *)
+From Traph Require GenHelpers GenHelpersFacts.
+
+Theorem C17_source_is_model : forall l, GenHelpers.py_lru_variations l = lru_variations l.
+Proof. exact GenHelpersFacts.py_lru_variations_eq. Qed.
+
+Theorem C17_source_closed : forall sch port hosts rest, fam sch port hosts rest ->
+  let l := build sch port hosts rest in
+  (hd [] (GenHelpers.py_lru_variations l) = l) /\
+  (NoDup (GenHelpers.py_lru_variations l)) /\
+  (forall x, In x (GenHelpers.py_lru_variations l) ->
+     forall y, In y (GenHelpers.py_lru_variations x) <-> In y (GenHelpers.py_lru_variations l)).
+Proof.
+  intros sch port hosts rest F l. unfold l. repeat split.
+  - rewrite C17_source_is_model. exact (VarFacts.C17_head _ _ _ _ F).
+  - rewrite C17_source_is_model. exact (VarFacts.C17_nodup _ _ _ _ F).
+  - rewrite !C17_source_is_model in *. apply (VarFacts.C17_closed _ _ _ _ F x); assumption.
+  - rewrite !C17_source_is_model in *. apply (VarFacts.C17_closed _ _ _ _ F x); assumption.
+Qed.
+
+Print Assumptions C17_source_is_model.
+Print Assumptions C17_source_closed.
 Print Assumptions C17_head.
 Print Assumptions C17_nodup.
 Print Assumptions C17_shape.
